@@ -14,11 +14,9 @@ CONSTANTS
   MaxBlocks = 6
   MaxReorg = 3
   MaxCrashes = 1
-  MaxDowns = 2
-  MaxSkips = 2
+  MaxDowns = 0
+  MaxSkips = 0
   FreeChoice = FALSE
 PROPERTY NoDeepReorg
 PROPERTY NoResyncRepair
-PROPERTY NoCatchUpOverStaleBranch
-PROPERTY NoCancelledResync
 CHECK_DEADLOCK FALSE
